@@ -116,6 +116,16 @@ class MyStr(str):
     pass
 
 
+class ItemsOnly:
+    """A record object that happens to have an items() method: no keys(), no lookup by key - not a mapping by any reading."""
+
+    def __init__(self, pairs):
+        self._pairs = pairs
+
+    def items(self):
+        return list(self._pairs)
+
+
 class Duck:
     """Has items()/keys()/__getitem__ but is not a collections.abc.Mapping."""
 
@@ -186,6 +196,13 @@ class Builder:
             return self.env[vs[1]]
         if t == 'duck':
             return Duck(dict((self.key(k), self.val(v)) for k, v in vs[1]))
+        if t == 'itemsonly':
+            return ItemsOnly([(self.key(k), self.val(v)) for k, v in vs[1]])
+        if t == 'xmlelement':
+            import xml.etree.ElementTree as ET
+            return ET.Element('server', dict((str(self.key(k)), str(self.val(v))) for k, v in vs[1]))
+        if t == 'dictitems':
+            return dict((self.key(k), self.val(v)) for k, v in vs[1]).items()
         if t == 'dictclass':
             return dict
         if t == 'map':
@@ -706,6 +723,9 @@ def directed_misc_cases():
         for secret in (None, '???'):
             yield dict(kind='nonmap', cls=v[0], secret=secret, call='kw', spec=json.dumps(v))
     yield dict(kind='nonmap', cls='duck', dontcare=1, secret=None, call='kw', spec=json.dumps(['duck', pairs]))
+    for t in ('itemsonly', 'dictitems'):
+        for secret in (None, '???'):
+            yield dict(kind='nonmap', cls=t, secret=secret, call='kw', spec=json.dumps([t, pairs]))
 
 
 def rand_case_variant(rng, text):
